@@ -166,4 +166,7 @@ def load(config, repo=None):
     with open(p) as fh:
         text = fh.read()
     text = re.sub(r"(?:[A-Za-z_][A-Za-z_0-9]*::)+_::_serde::", "serde::", text)
+    # likewise `core` / `alloc` / `std` reached through a dependency's public re-export
+    # (e.g. `garde::external::compact_str::core::num::checked_add` in the garde-only configuration)
+    text = re.sub(r"(?<![A-Za-z0-9_:])(?:[A-Za-z_][A-Za-z_0-9]*::)+(core|alloc|std)::(?=[a-z_]+::)", r"\1::", text)
     return json.loads(text)
